@@ -597,6 +597,7 @@ func genC14Plan(r *zsim.Rng) *sysPlan {
 		end = sysEvent{Kind: "sig", Sig: pick(r, "INT", "INT", "TERM"), DelayMs: 2500 + genDelay(r)}
 	}
 	p.StdoutClosed = r.Chance(1, 10)
+	p.TmpGone = r.Chance(1, 12)
 	if r.Chance(1, 15) {
 		// Targeted mode: a command started in the foreground runs for most of a minute; SIGTERM / SIGHUP
 		// arrives in the middle of it
